@@ -102,6 +102,13 @@ theorem step_other (s : State) (op : Op) (hop : op.other = true) :
       split
       · leaf
       · split <;> leaf
+    | metaComplete =>
+      simp only []
+      split
+      · leaf
+      · split
+        · leaf
+        · exact ⟨rfl, rfl, rfl, by simp [castMeta]⟩
 
 
 /-! ### counters -/
@@ -459,6 +466,7 @@ theorem step_kinv (s : State) (op : Op) (hK : KInv s) (hF : FInv s) (hG : stepGu
       | wWrite w n => exact absurd rfl ho
       | wClose w => exact absurd rfl ho
       | finalise idx => exact absurd rfl ho
+      | metaComplete => exact absurd rfl ho
 
 theorem init_kinv (g : Geom) (tcap : Nat) : KInv (init g tcap) := by
   refine ⟨rfl, fun b => ?_, by simp [init]⟩
